@@ -2,6 +2,7 @@ package main
 
 import (
 	"go/ast"
+	"go/parser"
 	"go/token"
 	"go/types"
 	"strings"
@@ -381,26 +382,43 @@ func c14r4(p *Program, r *Report) {
 				return true
 			}
 			n++
-			norm := func(e ast.Expr) string {
+			// the components as the callers give them (a wrapper that forwards its parameters is looked through)
+			hostSites, ksSites := p.effectiveArgs(fi, c, 0, 0), p.effectiveArgs(fi, c, 1, 0)
+			normIn := func(fn *FuncInfo, e ast.Expr) string {
+				rc := ""
+				if fn.Decl.Recv != nil && len(fn.Decl.Recv.List) > 0 && len(fn.Decl.Recv.List[0].Names) > 0 {
+					rc = fn.Decl.Recv.List[0].Names[0].Name
+				}
 				s := exprStr(e)
-				if recv != "" {
-					s = strings.ReplaceAll(" "+s, " "+recv+".", " RECV.")
-					s = strings.TrimSpace(s)
-					if strings.HasPrefix(exprStr(e), recv+".") {
-						s = "RECV." + strings.TrimPrefix(exprStr(e), recv+".")
-					}
+				if rc != "" && strings.HasPrefix(s, rc+".") {
+					s = "RECV." + strings.TrimPrefix(s, rc+".")
 				}
 				return s
 			}
-			host, ks := norm(c.Args[0]), norm(c.Args[1])
-			okHost := false
-			if hc, ok := ast.Unparen(c.Args[0]).(*ast.CallExpr); ok && isCallTo(info, hc, "(*HostInfo).HostID") {
-				if rx := recvExpr(hc); rx != nil && p.isField(info, rx, "Conn", "host") {
-					okHost = true
+			okHost, okKs := len(hostSites) > 0, len(ksSites) > 0
+			for _, hs := range hostSites {
+				sinfo := hs.Fn.Pkg.TypesInfo
+				ok1 := false
+				if hc, ok := ast.Unparen(hs.Expr).(*ast.CallExpr); ok && isCallTo(sinfo, hc, "(*HostInfo).HostID") {
+					if rx := recvExpr(hc); rx != nil && p.isField(sinfo, rx, "Conn", "host") {
+						ok1 = true
+					}
+				}
+				if !ok1 {
+					okHost = false
 				}
 			}
-			okKs := p.isField(info, c.Args[1], "Conn", "currentKeyspace")
-			shapes = append(shapes, host+"|"+ks)
+			for _, ks := range ksSites {
+				if !p.isField(ks.Fn.Pkg.TypesInfo, ks.Expr, "Conn", "currentKeyspace") {
+					okKs = false
+				}
+			}
+			for i := range hostSites {
+				if i < len(ksSites) {
+					shapes = append(shapes, normIn(hostSites[i].Fn, hostSites[i].Expr)+"|"+normIn(ksSites[i].Fn, ksSites[i].Expr))
+				}
+			}
+			_ = recv
 			r.Check(okHost && okKs, c, fi.Name+" cache key components", "host id of the connection's host + the connection's current keyspace + statement",
 				"the prepared-statement key is built from ("+exprStr(c.Args[0])+", "+exprStr(c.Args[1])+", ...) instead of (c.host.HostID(), c.currentKeyspace, stmt): lookup, removal and eviction no longer address the same entry, or entries of different hosts/keyspaces collide")
 			return true
@@ -515,19 +533,41 @@ func c14r5(p *Program, r *Report) {
 			if !ok || len(as.Lhs) != 1 || len(as.Rhs) != 1 {
 				return true
 			}
-			ix, ok := ast.Unparen(as.Lhs[0]).(*ast.IndexExpr)
-			if !ok {
-				return true
-			}
-			mt, ok := info.TypeOf(ix.X).Underlying().(*types.Map)
-			if !ok || !strings.HasSuffix(exprStr(as.Rhs[0]), ".Stmt") {
-				return true
-			}
-			if b, isB := mt.Key().Underlying().(*types.Basic); !isB || b.Kind() != types.String {
+			var key ast.Expr
+			if ix, ok := ast.Unparen(as.Lhs[0]).(*ast.IndexExpr); ok {
+				mt, ok := info.TypeOf(ix.X).Underlying().(*types.Map)
+				if !ok || !strings.HasSuffix(exprStr(as.Rhs[0]), ".Stmt") {
+					return true
+				}
+				if b, isB := mt.Key().Underlying().(*types.Basic); !isB || b.Kind() != types.String {
+					return true
+				}
+				key = stripAllConv(info, ix.Index)
+			} else if c, isC := ast.Unparen(as.Rhs[0]).(*ast.CallExpr); isC && exprStr(c.Fun) == "append" && len(c.Args) == 2 {
+				// a list of (id, statement) pairs instead of a map
+				cl, isCL := ast.Unparen(c.Args[1]).(*ast.CompositeLit)
+				if !isCL {
+					return true
+				}
+				hasStmt := false
+				for _, el := range cl.Elts {
+					v := el
+					if kv, isKV := el.(*ast.KeyValueExpr); isKV {
+						v = kv.Value
+					}
+					if strings.HasSuffix(exprStr(v), ".Stmt") {
+						hasStmt = true
+					} else if isByteSlice(info.TypeOf(v)) || strings.HasPrefix(exprStr(v), "string(") {
+						key = stripAllConv(info, v)
+					}
+				}
+				if !hasStmt || key == nil {
+					return true
+				}
+			} else {
 				return true
 			}
 			nstore++
-			key := stripAllConv(info, ix.Index)
 			okKey := false
 			why := exprStr(key)
 			if fv := fieldOf(info, key); fv != nil && fv == idField {
@@ -611,11 +651,27 @@ func c14r6(p *Program, r *Report) {
 		n := 0
 		ast.Inspect(fi.Decl.Body, func(x ast.Node) bool {
 			c, ok := x.(*ast.CallExpr)
-			if !ok || !isCallTo(info, c, "marshalQueryValue") {
+			if !ok {
 				return true
 			}
+			if !isCallTo(info, c, "marshalQueryValue") {
+				// or a helper of the module that marshals the values it is handed
+				viaHelper := false
+				if fn := calleeOf(info, c); fn != nil {
+					if h := p.FuncOf(fn); h != nil && h.Pkg == p.Root && h.Decl.Body != nil && h != fi && h.Name != "marshalQueryValue" {
+						for _, hc := range callsIn(h.Decl.Body) {
+							if isCallTo(h.Pkg.TypesInfo, hc, "marshalQueryValue") {
+								viaHelper = true
+							}
+						}
+					}
+				}
+				if !viaHelper {
+					return true
+				}
+			}
 			n++
-			f, reach := facts.Before(c)
+			f, reach := facts.Before(p.stmtOf(c, fi))
 			if !reach {
 				return true
 			}
@@ -657,6 +713,18 @@ func c14r7(p *Program, r *Report) {
 			f, ok := facts.Before(p.stmtOf(c, add))
 			if !ok {
 				continue
+			}
+			// difference-bound form: MaxEntries < Len() (or <=) through any local that holds the limit
+			if add.Decl.Recv != nil && len(add.Decl.Recv.List) == 1 && len(add.Decl.Recv.List[0].Names) == 1 {
+				rn := add.Decl.Recv.List[0].Names[0].Name
+				maxE, err1 := parser.ParseExpr(rn + ".MaxEntries")
+				lenE, err2 := parser.ParseExpr(rn + ".ll.Len()")
+				if err1 == nil && err2 == nil {
+					d := newDBM(p.GraphOf(add), f, nil)
+					if d.leExpr(maxE, 0, lenE, 0) {
+						found = true
+					}
+				}
 			}
 			for k, v := range f.m {
 				ks := strings.ReplaceAll(k, " ", "")
